@@ -140,6 +140,64 @@ func c21Sum(k int64) int64 {
 	return s
 }
 
+// Every transaction i also changes the schema: it creates the object(s) O_i (an index, a view, a trigger, or a
+// table with a row and an index, by i mod 4; the names carry i) and drops O_(i-c21Window).  The schema after k
+// transactions is therefore the base schema plus O_j for k-c21Window < j <= k: it identifies k.
+const c21Window = 3
+
+type c21Obj struct{ Type, Name, SQL string }
+
+var c21Base = []c21Obj{
+	{"table", "a", "CREATE TABLE a(id INTEGER PRIMARY KEY, v INTEGER)"},
+	{"table", "m", "CREATE TABLE m(id INTEGER PRIMARY KEY, s TEXT)"},
+	{"table", "z", "CREATE TABLE z(id INTEGER PRIMARY KEY, v INTEGER)"},
+	{"table", "zlog", "CREATE TABLE zlog(seq INTEGER PRIMARY KEY, delta INTEGER)"},
+	{"index", "log_delta", "CREATE INDEX log_delta ON zlog(delta)"},
+}
+
+func c21Objs(i int64) []c21Obj {
+	switch i % 4 {
+	case 0:
+		return []c21Obj{{"index", fmt.Sprintf("ix_%d", i), fmt.Sprintf("CREATE INDEX ix_%d ON zlog(delta, seq)", i)}}
+	case 1:
+		return []c21Obj{{"view", fmt.Sprintf("vw_%d", i), fmt.Sprintf("CREATE VIEW vw_%d AS SELECT seq, delta FROM zlog WHERE seq <= %d", i, i)}}
+	case 2:
+		return []c21Obj{{"trigger", fmt.Sprintf("tr_%d", i), fmt.Sprintf("CREATE TRIGGER tr_%d AFTER INSERT ON zlog WHEN NEW.seq < 0 BEGIN UPDATE a SET v = v WHERE id = -%d; END", i, i)}}
+	}
+	return []c21Obj{{"table", fmt.Sprintf("t_%d", i), fmt.Sprintf("CREATE TABLE t_%d(x INTEGER)", i)},
+		{"index", fmt.Sprintf("tx_%d", i), fmt.Sprintf("CREATE INDEX tx_%d ON t_%d(x)", i, i)}}
+}
+
+// statements creating O_i and dropping it again
+func c21Create(i int64) []string {
+	var out []string
+	for n, o := range c21Objs(i) {
+		out = append(out, o.SQL)
+		if o.Type == "table" && n == 0 {
+			out = append(out, fmt.Sprintf("INSERT INTO %s VALUES(%d)", o.Name, i))
+		}
+	}
+	return out
+}
+func c21Drop(i int64) string {
+	o := c21Objs(i)[0]
+	return fmt.Sprintf("DROP %s %s", strings.ToUpper(o.Type), o.Name) // dropping the table drops its index
+}
+
+// the schema after k transactions, as "type name sql" lines, sorted
+func c21Schema(k int64) []string {
+	objs := append([]c21Obj{}, c21Base...)
+	for j := max64(1, k-c21Window+1); j <= k; j++ {
+		objs = append(objs, c21Objs(j)...)
+	}
+	out := make([]string, len(objs))
+	for i, o := range objs {
+		out[i] = o.Type + " " + o.Name + " " + o.SQL
+	}
+	sort.Strings(out)
+	return out
+}
+
 func c21Stmts(sqls ...string) *command.ExecuteRequest {
 	er := &command.ExecuteRequest{Request: &command.Request{Transaction: true}}
 	for _, s := range sqls {
@@ -281,11 +339,21 @@ func (e *c21Env) commitOne() bool {
 	i := atomic.LoadInt64(&e.started) + 1
 	d := c21Delta(i)
 	atomic.StoreInt64(&e.started, i)
-	res, _, err := e.st.Execute(context.Background(), c21Stmts(
+	sqls := []string{
 		fmt.Sprintf("UPDATE a SET v = v - (%d) WHERE id = 1", d),
 		fmt.Sprintf("UPDATE z SET v = v + (%d) WHERE id = 1", d),
-		fmt.Sprintf("INSERT INTO zlog(seq, delta) VALUES(%d, %d)", i, d)))
-	if err != nil || len(res) != 3 {
+		fmt.Sprintf("INSERT INTO zlog(seq, delta) VALUES(%d, %d)", i, d)}
+	sqls = append(sqls, c21Create(i)...)
+	if i > c21Window {
+		sqls = append(sqls, c21Drop(i-c21Window))
+	}
+	res, _, err := e.st.Execute(context.Background(), c21Stmts(sqls...))
+	for _, r := range res {
+		if err == nil && (r.GetError() != "" || (r.GetE() != nil && r.GetE().Error != "")) {
+			err = fmt.Errorf("%v", r)
+		}
+	}
+	if err != nil || len(res) != len(sqls) {
 		// a failed write would make the committed prefix unknown: stop writing
 		e.t.Errorf("writer: %v %v", err, res)
 		return false
@@ -324,6 +392,8 @@ type c21State struct {
 	Pad      int64
 	Integ    string
 	Index    bool
+	Schema   []string // "type name sql" of every object, sorted
+	TRowsOK  bool     // every workload table t_<j> holds exactly the row (j)
 }
 
 // c21Load turns the bytes of a backup into the observable state of the database it describes.
@@ -396,6 +466,34 @@ func c21Load(dir string, in c21Input, body []byte) c21State {
 		return c21State{Why: st.Why}
 	}
 	st.Index = idx == 1
+	rows, err := db.Query("SELECT type, name, sql FROM sqlite_master WHERE name NOT LIKE 'sqlite_%'")
+	if err != nil {
+		return c21State{Why: "sqlite_master: " + err.Error()}
+	}
+	var tnames []string
+	for rows.Next() {
+		var ty, name, sqlText string
+		if err := rows.Scan(&ty, &name, &sqlText); err != nil {
+			rows.Close()
+			return c21State{Why: "sqlite_master: " + err.Error()}
+		}
+		st.Schema = append(st.Schema, ty+" "+name+" "+sqlText)
+		if ty == "table" && strings.HasPrefix(name, "t_") {
+			tnames = append(tnames, name)
+		}
+	}
+	rows.Close()
+	sort.Strings(st.Schema)
+	st.TRowsOK = true
+	for _, tn := range tnames {
+		var n, x int64
+		if !q("SELECT count(*), coalesce(max(x), -1) FROM "+tn, &n, &x) {
+			return c21State{Why: st.Why}
+		}
+		if n != 1 || fmt.Sprintf("t_%d", x) != tn {
+			st.TRowsOK = false
+		}
+	}
 	st.Loadable = true
 	return st
 }
@@ -415,10 +513,46 @@ func c21Judge(st c21State, lo, hi int64) (ok bool, sig, msg string) {
 	if st.LogMax != k || st.LogSum != c21Sum(k) || st.B != c21Sum(k) {
 		return false, "not-a-committed-prefix", fmt.Sprintf("log rows %d max %d sum %d, b=%d; state after %d transactions has b=%d", st.LogN, st.LogMax, st.LogSum, st.B, k, c21Sum(k))
 	}
+	if want := c21Schema(k); strings.Join(want, "\n") != strings.Join(st.Schema, "\n") || !st.TRowsOK {
+		return false, "schema-of-another-version", fmt.Sprintf("rows are the state after %d transactions, but the schema is not that state's: %s (workload tables hold their rows: %v)", k, c21SchemaDiff(want, st.Schema), st.TRowsOK)
+	}
 	if k < lo || k > hi {
 		return false, "outside-backup-interval", fmt.Sprintf("state after %d transactions, but %d were acknowledged before the backup started and %d had been issued when it ended", k, lo, hi)
 	}
 	return true, "", ""
+}
+
+func c21SchemaDiff(want, got []string) string {
+	w, g := map[string]bool{}, map[string]bool{}
+	for _, x := range want {
+		w[x] = true
+	}
+	for _, x := range got {
+		g[x] = true
+	}
+	var extra, missing []string
+	for _, x := range got {
+		if !w[x] {
+			extra = append(extra, x)
+		}
+	}
+	for _, x := range want {
+		if !g[x] {
+			missing = append(missing, x)
+		}
+	}
+	return fmt.Sprintf("unexpected %q, missing %q", extra, missing)
+}
+
+// the version whose schema this is, searched around [lo, hi]; -1 if it is no version's schema
+func c21SchemaVersion(st c21State, lo, hi int64) int64 {
+	got := strings.Join(st.Schema, "\n")
+	for k := max64(lo-c21Window-2, 0); k <= hi+c21Window+2; k++ {
+		if strings.Join(c21Schema(k), "\n") == got {
+			return k
+		}
+	}
+	return -1
 }
 
 func (in c21Input) query() string {
@@ -500,11 +634,14 @@ func c21RunLive(e *c21Env, w *vWriter, in c21Input) {
 			if in.Format == "sql" && (sig == "invariant-broken" || sig == "not-a-committed-prefix") {
 				vc.Sig = "C21:dump-not-point-in-time"
 			}
+			if in.Format == "sql" && (sig == "schema-of-another-version" || (sig == "not-a-database" && strings.Contains(msg, "dump does not load"))) {
+				vc.Sig = "C21:dump-schema-not-point-in-time"
+			}
 		}
 		if st.Loadable {
 			// versions seen by the three tables: a after ka transactions, b after kb, log after kl
 			ka, kb := c21Find(c21Total-st.A, lo, hi), c21Find(st.B, lo, hi)
-			obs = fmt.Sprintf("(OState %s %s %s %s)", coqOpt(ka >= 0, coqN(uint64(max64(ka, 0)))), coqOpt(kb >= 0, coqN(uint64(max64(kb, 0)))), coqN(uint64(st.LogN)), coqBool(st.Pad == c21Pad && st.Index && st.LogMax == st.LogN))
+			obs = fmt.Sprintf("(OState %s %s %s %s %s)", coqOpt(ka >= 0, coqN(uint64(max64(ka, 0)))), coqOpt(kb >= 0, coqN(uint64(max64(kb, 0)))), coqN(uint64(st.LogN)), c21OptN(c21SchemaVersion(st, lo, hi)), coqBool(st.Pad == c21Pad && st.Index && st.LogMax == st.LogN && st.TRowsOK))
 		} else {
 			obs = "OGarbage"
 		}
@@ -520,6 +657,8 @@ func c21RunLive(e *c21Env, w *vWriter, in c21Input) {
 	vc.Coq = fmt.Sprintf("{| %s; c_scn := Live %s %s %s |}", in.coqFlags(), coqN(uint64(lo)), coqN(uint64(hi)), obs)
 	w.Emit(vc)
 }
+
+func c21OptN(k int64) string { return coqOpt(k >= 0, coqN(uint64(max64(k, 0)))) }
 
 func max64(a, b int64) int64 {
 	if a > b {
@@ -755,10 +894,13 @@ func c21RunBlocked(e *c21Env, w *vWriter, in c21Input) {
 			if in.Format == "sql" && (sig == "invariant-broken" || sig == "not-a-committed-prefix") {
 				vc.Sig = "C21:dump-not-point-in-time"
 			}
+			if in.Format == "sql" && (sig == "schema-of-another-version" || (sig == "not-a-database" && strings.Contains(msg, "dump does not load"))) {
+				vc.Sig = "C21:dump-schema-not-point-in-time"
+			}
 		}
 		if st.Loadable {
 			ka, kb := c21Find(c21Total-st.A, lo, hi), c21Find(st.B, lo, hi)
-			obs = fmt.Sprintf("(OState %s %s %s %s)", coqOpt(ka >= 0, coqN(uint64(max64(ka, 0)))), coqOpt(kb >= 0, coqN(uint64(max64(kb, 0)))), coqN(uint64(st.LogN)), coqBool(st.Pad == c21Pad && st.Index && st.LogMax == st.LogN))
+			obs = fmt.Sprintf("(OState %s %s %s %s %s)", coqOpt(ka >= 0, coqN(uint64(max64(ka, 0)))), coqOpt(kb >= 0, coqN(uint64(max64(kb, 0)))), coqN(uint64(st.LogN)), c21OptN(c21SchemaVersion(st, lo, hi)), coqBool(st.Pad == c21Pad && st.Index && st.LogMax == st.LogN && st.TRowsOK))
 		} else {
 			obs = "OGarbage"
 		}
